@@ -3,6 +3,8 @@ import NimaVerif.Lemmas.Mapping
 /-! Creation of the innermost layer (`@name` on a document without layers), the documented
 shortcut, and the missing-layer refusals. -/
 namespace Nima
+-- name tokens are compared by spelling in this file (see `NameCmp` in Model/Edit.lean)
+attribute [local instance] NameCmp.spelled
 
 open Node EditM
 
@@ -88,7 +90,7 @@ theorem findAttrpathLeaf_emptyset (sid : Nat) (m r : Bool) (segs : List Text) :
   | cons a rest =>
     cases rest with
     | nil => rfl
-    | cons b more => simp [findAttrpathRoot, setValues]
+    | cons b more => simp [findAttrpathRoot_spelled, setValues]
 
 theorem setGetItem_emptyset (sid : Nat) (m r : Bool) (key : Text) :
     ∃ e, setGetItem (.set sid [] [] m r) key = .error e := by
@@ -104,8 +106,8 @@ theorem setGetItem_emptyset (sid : Nat) (m r : Bool) (key : Text) :
       | nil => exact ⟨_, rfl⟩
       | cons a rest =>
         cases rest with
-        | nil => simp [setGetItem.walk, findBinding, setValues]
-        | cons b more => simp [setGetItem.walk, findBinding, setValues]
+        | nil => simp [setGetItem.walk, findBinding_spelled, setValues]
+        | cons b more => simp [setGetItem.walk, findBinding_spelled, setValues]
 
 theorem scratch_updSet_self (d : Doc) (sid : Nat) (f : Node → Node) (n : Node)
     (hs : d.scratch = some n) (hn : n.setSid? = some sid) :
